@@ -93,9 +93,9 @@ Record glob := Glob {
   destroyed : nat -> nat;         (* ghost: per line, destructions of a trigger attached to it *)
   gnull : bool;                   (* fault: null shared_ptr dereferenced *)
   gwin : bool;                    (* fault: overlapping access windows on a datum *)
-  grace : bool }.                 (* fault: data race (vector clocks) *)
+  grace : nat -> bool }.          (* fault, per datum: data race (vector clocks) *)
 
-Definition faulted (g : glob) : bool := gnull g || gwin g || grace g.
+Definition faulted (nd : nat) (g : glob) : bool := gnull g || gwin g || existsb (grace g) (seq 0 nd).
 
 Definition lobj (l : nat) : Z := Z.of_nat l + 1.
 Definition dobj (d : nat) : Z := Z.of_nat d + 1000.
@@ -122,7 +122,8 @@ Definition do_load (P : params) (t ch l : nat) (g : glob) : glob :=
        (cells g) (destroyed g) (gnull g) (gwin g) (grace g).
 
 Definition set_cell (g : glob) (d : nat) (x : cell) (win race : bool) : glob :=
-  Glob (hs g) (clk g) (seen g) (fupd (cells g) d x) (destroyed g) (gnull g) (gwin g || win) (grace g || race).
+  Glob (hs g) (clk g) (seen g) (fupd (cells g) d x) (destroyed g) (gnull g) (gwin g || win)
+       (fupd (grace g) d (grace g d || race)).
 
 (* vs::VPay::write / read, first half: overlap check (faults 1, 3 / 2), FastTrack check *)
 Definition wbeg_faults (x : cell) (d : nat) : list ev :=
@@ -248,7 +249,7 @@ Definition fin (l : loc) : bool := match at_ l, prog l with Idle, [] => true | _
 
 Definition cell0 : cell := Cell 0 0 false ft0.
 Definition glob0 : glob :=
-  Glob (fun _ => []) clk0 (fun _ _ => 0%nat) (fun _ => cell0) (fun _ => 0%nat) false false false.
+  Glob (fun _ => []) clk0 (fun _ _ => 0%nat) (fun _ => cell0) (fun _ => 0%nat) false false (fun _ => false).
 Definition loc0 (p : list op) : loc := Loc p Idle (fun _ => None) (fun _ => None).
 Definition init (progs : list (list op)) : sys glob loc := Sys glob0 (map loc0 progs).
 
